@@ -402,7 +402,9 @@ def groupcountdistinctvalues(table, key, value):
     
     s1 = cut(table, key, value)
     s2 = distinct(s1)
-    s3 = aggregate(s2, key, len)
+    # N.B., after the cut the key is the first field, so a key given as a field
+    # index has to be translated
+    s3 = aggregate(s2, 0 if isinstance(key, int) else key, len)
     return s3
 
 
